@@ -14,7 +14,7 @@ META = {
     "engine": "A (exhaustive input enumeration)",
     "rule": "a case = one ordered generating set of one stabilizer state (or one labelled graph); non-trivial = the state is "
             "entangled or has a negative generator; distinct = distinct generating sets / graphs",
-    "bounds": {"quick": "all presentations of all states n<=3 (6 + 360 + 181440); all 36720 states n=4 in one presentation; all graphs n<=5",
+    "bounds": {"quick": "all presentations of all states n<=3 (6 + 360 + 181440); all 36720 states n=4 in two presentations (reduced and deliberately unreduced); all graphs n<=5",
                "thorough": "+ all 36720 states n=4 in canonical presentation with every single row addition; all graphs n<=6"},
     "assumptions": ["R1 gate table for H,P,P_dag,X,Y,Z,CNOT,CZ"],
 }
@@ -135,6 +135,11 @@ def run_shard(shard, tier, acc):
         for si in range(shard["lo"], min(shard["hi"], len(states))):
             s = states[si]
             check_presentation(acc, s, {"n": 4, "gens": s.strings()}, with_vector=False)
+            # a second, deliberately unreduced generating set of the same state: reversed order, each generator multiplied by its successor
+            gens = list(s.gens)[::-1]
+            gens = [P.mul(gens[k], gens[k + 1]) if k + 1 < 4 else gens[k] for k in range(4)]
+            s2 = P.StabGroup(4, gens)
+            check_presentation(acc, s2, {"n": 4, "gens": s2.strings()}, with_vector=False)
             for i, j in (itertools.permutations(range(4), 2) if shard.get("additions") else ()):
                 gens = list(s.gens)
                 gens[i] = P.mul(gens[i], gens[j])
